@@ -355,6 +355,9 @@ def gen_combo(rng):
     if "V" in F:
         options += [["V"], ["A", "V"], ["A", "V"], ["V"]]
     crossing = rng.choice(options)
+    if "V" in F and rng.random() < 0.45:
+        # a crossed derived factor that reads an uncrossed derived factor
+        crossing = rng.choice([["A", "V"], ["V"], ["A", "V"]])
     if "B" not in crossing and rng.random() < 0.3 and all(w == 1 for _, w in F["A"]["levels"]):
         # a weighted level of a factor outside the crossing (desugared into a hidden mirror factor)
         rng.choice(F["B"]["levels"])[1] = 2
